@@ -99,6 +99,10 @@ where
 /// The service name is schema text that becomes a type name: only identifier characters are kept.
 fn service_type_name(name: &str) -> String {
     let ident: String = name.chars().filter(|c| c.is_ascii_alphanumeric() || *c == '_').collect();
+    if ident.is_empty() || ident == "_" {
+        // nothing usable is left of the name, and `_` alone is not an identifier
+        return "Service_".to_string();
+    }
     if ident.chars().next().map_or(true, |c| c.is_ascii_digit()) {
         format!("_{ident}")
     } else {
